@@ -4,6 +4,7 @@ import ZstdVerif.Model.Bound
 import ZstdVerif.Model.Stream
 import ZstdVerif.Model.SeqApi
 import ZstdVerif.Model.Seekable
+import ZstdVerif.Model.Window
 import Driver.Util
 namespace Driver.Dec
 open ZstdVerif
@@ -121,6 +122,13 @@ def step (_ : Unit) (ws : List String) : Unit × String :=
           let cum := (Seekable.cumulative es).toArray
           let d (i : Nat) : Nat := (cum.getD i (0, 0)).2
           "ok" ++ String.join ((ps.splitOn ",").map (fun p => " " ++ toString (Seekable.offsetToFrameIndex d es.length p.toNat!))))
+  | ["corr", lo, di, nb, cyc, md, cur] =>
+      let (c, nc, w) := Window.correctOverflow ⟨lo.toNat!, di.toNat!, nb.toNat!⟩ cyc.toNat! md.toNat! cur.toNat!
+      ((), s!"{c} {nc} {w.lowLimit} {w.dictLimit} {w.nbOverflowCorrections}")
+  | ["need", fr, lo, di, nb, cyc, md, lde, cs, ce] =>
+      ((), if Window.needOverflowCorrection (fr == "1") ⟨lo.toNat!, di.toNat!, nb.toNat!⟩ cyc.toNat! md.toNat! lde.toNat! cs.toNat! ce.toNat! then "1" else "0")
+  | ["reduce", pm, red, vs] =>
+      ((), ",".intercalate ((vs.splitOn ",").map (fun v => toString (Window.reduceCell (pm == "1") red.toNat! v.toNat!))))
   | ["walk", hx] =>
       let b := if hx == "-" then ByteArray.empty else ByteArray.ofHex hx
       ((), match Walker.frames (fun i => b.u8 i) (b.size + 1) 0 b.size with
